@@ -63,15 +63,49 @@ func probe(c *restful.Container, rq routing.Req) (Probe, string) {
 
 // Observe probes one URL on twin containers (without / with the OPTIONS filter).
 func Observe(cfg routing.Config, base routing.Req) (*Obs, error) {
-	plain, err := routing.Build(cfg)
+	return observe(cfg, nil, base)
+}
+
+// ObserveAfterRemove: the twin containers are built with `extra` registered last, answer OPTIONS
+// and GET for the URL once, and then Remove that service again; the observation that follows must be
+// the one of containers that never held it.
+func ObserveAfterRemove(cfg routing.Config, extra routing.Service, base routing.Req) (*Obs, error) {
+	return observe(cfg, &extra, base)
+}
+
+func observe(cfg routing.Config, extra *routing.Service, base routing.Req) (*Obs, error) {
+	full := cfg
+	if extra != nil {
+		full.Services = append(append([]routing.Service{}, cfg.Services...), *extra)
+	}
+	plain, err := routing.Build(full)
 	if err != nil {
 		return nil, err
 	}
-	filtered, err := routing.Build(cfg)
+	filtered, err := routing.Build(full)
 	if err != nil {
 		return nil, err
 	}
 	filtered.Filter(filtered.OPTIONSFilter)
+	if extra != nil {
+		for _, c := range []*restful.Container{plain, filtered} {
+			for _, m := range []string{"OPTIONS", "GET"} {
+				rq := base
+				rq.Method = m
+				func() {
+					defer func() { recover() }()
+					c.Dispatch(httptest.NewRecorder(), routing.HTTPRequest(rq))
+				}()
+			}
+			var victim *restful.WebService
+			for _, ws := range c.RegisteredWebServices() {
+				victim = ws // registered last
+			}
+			if err := c.Remove(victim); err != nil {
+				return nil, err
+			}
+		}
+	}
 	o := &Obs{Untouched: true}
 	for _, m := range Methods {
 		rq := base
@@ -156,9 +190,23 @@ func canonModel(n *sx.Node) string {
 
 // Check runs the stream for one router.
 func Check(run *report.Run, router string, nCfg, perCfg int) error {
+	return check(run, router, nCfg, perCfg, false)
+}
+
+// CheckHistory is Check on containers with a past: the last WebService of the generated table is
+// registered, sees traffic (OPTIONS included) and is removed again before the observation; the
+// model and the predicate are given the table without it.
+func CheckHistory(run *report.Run, router string, nCfg, perCfg int) error {
+	return check(run, router, nCfg, perCfg, true)
+}
+
+func check(run *report.Run, router string, nCfg, perCfg int, history bool) error {
 	o := routing.FullOpts(router)
 	o.AllowRe, o.AllowSuf, o.AllowWild, o.AllowVerb, o.RootVars, o.RootRe, o.Conds = false, false, false, false, false, false, false
 	base := rng.New(run.Seed*999331 + uint64(len(router)))
+	if history {
+		base = rng.New(run.Seed*999331 + 77 + uint64(len(router)))
+	}
 	type cs struct {
 		cfg  routing.Config
 		req  routing.Req
@@ -198,9 +246,26 @@ func Check(run *report.Run, router string, nCfg, perCfg int) error {
 			routing.SkippedBuild++
 			continue
 		}
+		var removed *routing.Service
+		full := cfg
+		if history {
+			if len(cfg.Services) < 2 {
+				continue
+			}
+			last := cfg.Services[len(cfg.Services)-1]
+			removed = &last
+			cfg.Services = cfg.Services[:len(cfg.Services)-1]
+		}
 		for qi := 0; qi < perCfg; qi++ {
-			rq := routing.GenReq(r, o, cfg)
-			obs, err := Observe(cfg, rq)
+			rq := routing.GenReq(r, o, full) // URLs of the removed service too
+			var obs *Obs
+			var err error
+			if removed != nil {
+				obs, err = ObserveAfterRemove(cfg, *removed, rq)
+				run.Count(router + ":observed-after-add-traffic-remove")
+			} else {
+				obs, err = Observe(cfg, rq)
+			}
 			if err != nil {
 				return err
 			}
@@ -269,6 +334,52 @@ func Check(run *report.Run, router string, nCfg, perCfg int) error {
 		}
 	}
 	run.Extra["skipped_tables_F11"] = routing.SkippedBuild
+	return nil
+}
+
+// CheckSlash (C14): the OPTIONS filter's Allow / Access-Control-Allow-Methods and the statuses and
+// Allow sets of every probed method are the same for p and for p/.
+func CheckSlash(run *report.Run, router string, nCfg, perCfg int) error {
+	o := routing.FullOpts(router)
+	o.AllowRe, o.AllowSuf, o.AllowWild, o.AllowVerb, o.RootVars, o.RootRe, o.Conds = false, false, false, false, false, false, false
+	base := rng.New(run.Seed*999331 + 131 + uint64(len(router)))
+	bad := 0
+	for ci := 0; ci < nCfg; ci++ {
+		r := base.Fork(uint64(ci))
+		cfg := routing.GenConfig(r, o)
+		if _, err := routing.Build(cfg); err != nil {
+			routing.SkippedBuild++
+			continue
+		}
+		for qi := 0; qi < perCfg; qi++ {
+			rq := routing.GenReq(r, o, cfg)
+			if strings.Trim(rq.Path, "/") == "" || strings.HasSuffix(rq.Path, "/") || strings.Contains(rq.Path, "//") || !strings.HasPrefix(rq.Path, "/") {
+				continue
+			}
+			rq2 := rq
+			rq2.Path += "/"
+			a, err := Observe(cfg, rq)
+			if err != nil {
+				return err
+			}
+			b, err := Observe(cfg, rq2)
+			if err != nil {
+				return err
+			}
+			run.Evaluations++
+			run.TracesValidated += 4 * len(Methods)
+			ca, cb := canonReal(a), canonReal(b)
+			if len(a.OptAllow) > 0 {
+				run.Distinct[router+"|slash|"+cfg.Sx().String()+rq.Path] = true
+				run.Count(router + ":options-allow-nonempty")
+			}
+			if ca != cb && bad < 3 {
+				bad++
+				run.AddViolation(report.Violation{Kind: "counterexample", What: "C14: the Allow headers (405 answers, OPTIONS filter) or statuses differ between p and p/",
+					Human: map[string]interface{}{"table": routing.Human(&cfg, rq), "p": rq.Path, "p/": rq2.Path}, Real: ca, Model: cb})
+			}
+		}
+	}
 	return nil
 }
 
